@@ -8,6 +8,13 @@ export CARGO_NET_OFFLINE=true CARGO_BUILD_JOBS=8
 git -C /repo worktree remove --force $WT 2>/dev/null
 git -C /repo worktree add -q --detach $WT HEAD || exit 2
 declare -A DEMO=(
+ [C16h_declaration_operand_split_at_last_equals]="-p yash-builtin --test c16h_declaration_value"
+ [C04h_star_run_swallows_quoted_star]="-p yash-fnmatch -p yash-semantics -E test(c04h)"
+ [C19h_wait_any_skips_stopped_children]="-p yash-builtin --test c19h_wait_stopped_child"
+ [C18h_verbose_echo_decided_at_startup]="-p yash-cli --test c18h_verbose_option"
+ [C20h_long_match_stops_after_first_run]="-p yash-builtin --test c20h_ambiguous_long_option"
+ [C07h_array_element_keyword_rejected]="-p yash-builtin --test c07h_set_listing_roundtrip"
+ [C05h_leading_period_flag_from_any_atom]="-p yash-semantics --test c05h_leading_period"
  [C11h_startup_ignores_stoppers_without_interactive]="-p yash-cli --test c11h_startup_dispositions"
  [C08h_subshell_runs_parents_exit_trap]="-p yash-semantics --test c08h_exit_trap_in_subshell"
  [C10h_postfix_on_readonly_ignored]="-p yash-semantics --test c10h_arith_readonly"
